@@ -1012,7 +1012,7 @@ theorem pixel_glue_fits :
       | .bgraSwap => u.2.1 == ⟨.rgba, 1⟩) = true := by
   decide +kernel
 
-theorem TrapLoops.PxFn.fits_of_fitsB {f : TrapLoops.PxFn} {e d : Nat} (h : f.fitsB e d = true) : f.Fits e d := by
+theorem pxfn_fits_of_fitsB {f : TrapLoops.PxFn} {e d : Nat} (h : f.fitsB e d = true) : f.Fits e d := by
   cases f with
   | helper a b =>
     simp only [TrapLoops.PxFn.fitsB, Bool.and_eq_true, decide_eq_true_eq, List.any_eq_true, List.mem_range,
